@@ -363,8 +363,10 @@ func genStyledSubs(r *rng) *astisub.Subtitles {
 		if r.bool() {
 			sa.TTMLOrigin = strp("10% 80%")
 		}
-		if r.chance(1, 3) {
-			sa.WebVTTStyles = []string{"::cue(b) {", "  color: peachpuff;", "}"}
+		if r.chance(1, 2) {
+			// the same block may be held by several styles, with other blocks in between
+			sa.WebVTTStyles = [][]string{{"::cue(b) {", "  color: peachpuff;", "}"}, {"::cue(i) { font-size: 120% }"}, {"::cue(b) {", "  color: peachpuff;", "}"},
+				{"::cue { color: red }", "::cue(u) { color: blue }"}}[r.intn(4)]
 		}
 		if r.bool() {
 			sa.WebVTTWidth = "40%"
